@@ -23,7 +23,7 @@ def showToc (t : Toc) : String :=
   if t.elems.isEmpty then "ok -" else "ok " ++ " ".intercalate (t.elems.map showElem)
 
 def showSt : FState → String
-  | .info => "info" | .element => "element" | .done => "done"
+  | .info => "info" | .element => "element" | .done => "done" | .aborted => "aborted"
 
 def showSends (l : List Bytes) : String :=
   if l.isEmpty then "-" else ",".intercalate (l.map toHex)
@@ -61,6 +61,17 @@ def step (s : DState) (ws : List String) : DState × String :=
           s!"ok sends={showSends r.sends} finished={if r.finished then 1 else 0} st={showSt r.f.st} req={r.f.req} nbr={r.f.nbr} crc={r.f.crc}")
       | .error e => (s, s!"err {e}")
     | _, _, _ => (s, "bad-op")
+  | ["fdisc"] =>
+    match s.f with
+    | some f => ({ s with f := some f.disconnect }, s!"ok st={showSt f.disconnect.st} registered={if f.disconnect.registered then 1 else 0}")
+    | none => (s, "bad-op")
+  | ["xdisc"] =>
+    match s.x with
+    | some x =>
+      let x' := x.disconnect
+      ({ s with x := some x' },
+        s!"ok count={x'.count} done={x'.done} locked={if x'.locked then 1 else 0} req={match x'.reqParam with | some v => toString v | none => "-1"} queue={showNatList x'.queue} active={if x'.active then 1 else 0}")
+    | none => (s, "bad-op")
   | ["toc"] =>
     match curToc s with
     | some t => (s, showToc t)
@@ -97,7 +108,7 @@ def step (s : DState) (ws : List String) : DState × String :=
     | some x, some c, some d =>
       match x.onPacket c d with
       | .ok x' => ({ s with x := some x' },
-          s!"ok count={x'.count} done={x'.done} locked={if x'.locked then 1 else 0} req={match x'.reqParam with | some v => toString v | none => "-1"} queue={showNatList x'.queue}")
+          s!"ok count={x'.count} done={x'.done} locked={if x'.locked then 1 else 0} req={match x'.reqParam with | some v => toString v | none => "-1"} queue={showNatList x'.queue} active={if x'.active then 1 else 0}")
       | .error e => (s, s!"err {e}")
     | _, _, _ => (s, "bad-op")
   | ["plat", "start", g] =>
@@ -122,7 +133,7 @@ def step (s : DState) (ws : List String) : DState × String :=
   | ["ppkt", chan, d] =>
     match s.f, chan.toNat?, ofHex? d with
     | some f, some c, some d =>
-      if f.st ≠ .done then
+      if f.st ≠ .done ∧ f.st ≠ .aborted then
         match f.onPacket decodeParam c d with
         | .error e => (s, s!"err {e}")
         | .ok r =>
